@@ -47,6 +47,8 @@ def main(ctx: Ctx, prop=PROP):
     configs = [dict(n=2, inputs=[1, 2, 3], extra=0, retry=True, rr=True, deaths=1, refused=set(), poison=set(), single_polls=True),
                dict(n=2, inputs=[1, 2, 3], extra=1, retry=prop == 'C07', rr=True, deaths=1, refused=set(), poison=set(), single_polls=True)]
     configs.append(dict(n=2, inputs=[1, 2, 3], extra=1, retry=prop == 'C07', rr=True, deaths=0, refused=set(), poison=set(), single_polls=True, pre=[('d', 0, False)]))
+    # transient enqueue failures on live workers (enqueue raises once, the worker stays alive)
+    configs.append(dict(n=2, inputs=[1, 2, 3], extra=0, retry=prop == 'C07', rr=True, deaths=1, refused=set(), poison=set(), single_polls=True, flaky={(0, 1), (1, 3)}))
     if T:
         configs += [dict(n=2, inputs=[1, 2, 3, 4], extra=1, retry=True, rr=True, deaths=2, refused=set(), poison=set(), single_polls=True),
                     dict(n=2, inputs=[1, 2, 3], extra=0, retry=False, rr=True, deaths=2, refused=set(), poison=set()),
@@ -93,6 +95,7 @@ def replay(case):
     c['pre'] = _events(case.get('pre', []))
     c['refused'] = {tuple(x) for x in case.get('refused', [])}
     c['poison'] = set(case.get('poison', []))
+    c['flaky'] = {tuple(x) for x in case.get('flaky', [])}
     r = PC.run(c, script)
     print(PC.line(c, script))
     print('real:', r['outcome'], 'ret', r['ret'], 'enq', r['enq'], 'closed', r['closed'])
